@@ -571,3 +571,74 @@ func Harness_C15_multiCollectionResume() {
 	verifAssert(verifLiveThreads() == 0, "no feed goroutine is left")
 	verifReach("done")
 }
+
+// C11: a drop also removes the collection's design documents and leaves other collections'
+// (same design-doc name, same collection name in another scope) alone; a handle that had the
+// collection open before another handle dropped it gets the re-created, empty, usable
+// collection when it asks for it again.
+func Harness_C11_dropRecreateOtherHandle() {
+	le := lifeBegin(true)
+	ctx := context.Background()
+	name := sgbucket.DataStoreNameImpl{Scope: "sc", Collection: "c1"}
+	other := sgbucket.DataStoreNameImpl{Scope: "sc2", Collection: "c1"}
+	ds, err := le.h1.NamedDataStore(other)
+	verifAssume(err == nil)
+	o2 := ds.(*Collection)
+	ds, err = le.h2.NamedDataStore(name) // the second handle has the collection open (cached) too
+	verifAssume(err == nil)
+	viaH2 := ds.(*Collection)
+	verifMapSource(verifMapA)
+	dd := &sgbucket.DesignDoc{Views: sgbucket.ViewMap{"v": sgbucket.ViewDef{Map: verifMapA}}}
+	verifAssert(le.o1.PutDDoc(ctx, "dd", dd) == nil, "PutDDoc succeeds")
+	verifAssert(le.c1.PutDDoc(ctx, "dd", dd) == nil, "PutDDoc succeeds")
+	verifAssert(le.o1.SetRaw("k", 0, nil, []byte("named")) == nil, "write succeeds")
+	verifAssert(o2.SetRaw("k", 0, nil, []byte("otherscope")) == nil, "write succeeds")
+	verifAssert(viaH2.SetRaw("k2", 0, nil, []byte("h2")) == nil, "write through the second handle succeeds")
+	verifAssert(le.h1.DropDataStore(name) == nil, "drop succeeds")
+	verifJoin()
+	v, _, err := o2.GetRaw("k")
+	verifAssert(verifAnd(err == nil, string(v) == "otherscope"), "a collection of the same name in another scope is untouched by the drop")
+	_, err = le.c1.GetDDoc("dd")
+	verifAssert(err == nil, "another collection's design document of the same name survives the drop")
+	// re-create through the handle that did not drop it
+	ds, err = le.h2.NamedDataStore(name)
+	verifAssert(err == nil, "the collection can be re-created through the other handle")
+	if err != nil {
+		return
+	}
+	again := ds.(*Collection)
+	_, _, err = again.GetRaw("k")
+	verifAssert(isMissing(err), "a re-created collection is empty")
+	_, err = again.GetDDoc("dd")
+	verifAssert(err != nil, "the dropped collection's design documents are gone")
+	verifAssert(again.SetRaw("k3", 0, nil, []byte("new")) == nil, "the re-created collection accepts writes")
+	ds, err = le.h1.NamedDataStore(name)
+	verifAssert(err == nil, "the first handle opens the re-created collection")
+	if err == nil {
+		v, _, err = ds.(*Collection).GetRaw("k3")
+		verifAssert(verifAnd(err == nil, string(v) == "new"), "both handles address the same re-created collection")
+	}
+	verifReach("done")
+}
+
+// C11/C16: the drop ends the collection's feeds whichever handle performs it, also one that
+// never opened the collection itself.
+func Harness_C11_dropByOtherHandleEndsFeeds() {
+	le := lifeBegin(true)
+	name := sgbucket.DataStoreNameImpl{Scope: "sc", Collection: "c1"}
+	done := make(chan struct{})
+	doneDefault := make(chan struct{})
+	n := 0
+	verifAssert(le.o1.StartDCPFeed(context.Background(), sgbucket.FeedArguments{ID: "o", Backfill: sgbucket.FeedNoBackfill, DoneChan: done}, func(sgbucket.FeedEvent) bool { n++; return true }, nil) == nil, "feed starts")
+	verifAssert(le.c1.StartDCPFeed(context.Background(), sgbucket.FeedArguments{ID: "d", Backfill: sgbucket.FeedNoBackfill, DoneChan: doneDefault}, le.callback, nil) == nil, "feed starts")
+	verifJoin()
+	verifAssert(le.h2.DropDataStore(name) == nil, "drop through a handle that never opened the collection succeeds")
+	verifJoin()
+	verifAssert(verifDoneClosed(done), "dropping a collection ends its feeds, whichever handle drops it")
+	verifAssert(!verifDoneClosed(doneDefault), "another collection's feed keeps running")
+	verifAssert(le.c2.SetRaw("k", 0, nil, []byte("v")) == nil, "write succeeds")
+	verifJoin()
+	verifAssert(le.sawKey("k"), "another collection's feed still delivers")
+	verifAssert(n == 0, "the dropped collection's feed saw nothing")
+	verifReach("done")
+}
